@@ -78,12 +78,8 @@ MUTANTS = [
      "        len_limit = _MAX_MSG_ABSOLUTE if self.allow_long else _MAX_MSG_TYPICAL\n        self.allow_long = False\n",
      "        len_limit = _MAX_MSG_ABSOLUTE if self.allow_long else _MAX_MSG_TYPICAL\n"),
     ("c08-sync-unregister-not-awaited", "C08", "_core.py",
-     "            await_awaitable(self.async_unregister_service(info)),
-            self.loop,
-            _UNREGISTER_TIME * _REGISTER_BROADCASTS,",
-     "            self.async_unregister_service(info),
-            self.loop,
-            _UNREGISTER_TIME * _REGISTER_BROADCASTS,"),
+     "            await_awaitable(self.async_unregister_service(info)),\n            self.loop,",
+     "            self.async_unregister_service(info),\n            self.loop,"),
     ("c10-kept-query-keeps-old-ttl", "C10", "_services/browser.py",
      "                current.ttl = int(pointer.ttl) if isinstance(pointer.ttl, float) else pointer.ttl\n"
      "                current.expire_time_millis = pointer.get_expiration_time(100)\n", ""),
